@@ -3,12 +3,12 @@
    Tables, dispatch bounds and low-end constants come from gen/Tables.v = the current source text of /repo. *)
 From Coq Require Import ZArith.
 Require Import C12.gen.Tables.
-From C12 Require Import PrimeB Model ProofsSweep ProofsTable ProofsTab12 ProofsPrimes16 ProofsPPTable ProofsNext ProofsFactor ProofsDivisors ProofsDivisorsNoDup ProofsPower ProofsComplete ProofsSetForms ModelScript ProofsScript ProofsDecide ModelErat ProofsErat ProofsTerminate ProofsEratFull ProofsPowmod ModelFermat ProofsFermat ProofsFermatLittle ProofsMiller ModelDom ProofsDom.
+From C12 Require Import PrimeB Model ProofsSweep ProofsTable ProofsTab12 ProofsPrimes16 ProofsPPTable ProofsNext ProofsFactor ProofsDivisors ProofsDivisorsNoDup ProofsPower ProofsComplete ProofsSetForms ModelScript ProofsScript ProofsDecide ModelErat ProofsErat ProofsTerminate ProofsEratFull ProofsPowmod ModelFermat ProofsFermat ProofsFermatLittle ProofsMiller ModelDom ProofsDom ProofsCompose ProofsAccepted.
 Local Open Scope Z_scope.
 
 Theorem C12_isprime_exact_below_65536 : Isprime_table_stmt.          Proof. exact isprime_table. Qed.
 Print Assumptions C12_isprime_exact_below_65536.
-Theorem C12_isprime_below_2 : Isprime_below_2_stmt.                  Proof. exact isprime_below_2. Qed.
+Theorem C12_isprime_below_2 : Isprime_below_2_ok.                    Proof. exact isprime_below_2_ok. Qed.
 Print Assumptions C12_isprime_below_2.
 Theorem C12_isprime_Tabule_exact : Tabule1_stmt.                     Proof. exact tabule1_correct. Qed.
 Print Assumptions C12_isprime_Tabule_exact.
@@ -32,9 +32,9 @@ Theorem C12_protected_prevprime_greatest_prime_below : Protected_prevprime_stmt.
 Print Assumptions C12_protected_prevprime_greatest_prime_below.
 Theorem C12_prevprime_terminates : Prevprime_terminates_stmt.        Proof. exact prevprime_terminates. Qed.
 Print Assumptions C12_prevprime_terminates.
-Theorem C12_prevprime_at_3 : Prevprime_at_3_stmt.                    Proof. exact prevprime_at_3. Qed.
+Theorem C12_prevprime_at_3 : Prevprime_at_3_ok.                      Proof. exact prevprime_at_3_ok. Qed.
 Print Assumptions C12_prevprime_at_3.
-Theorem C12_protected_prevprime_at_3 : Protected_prevprime_at_3_stmt. Proof. exact protected_prevprime_at_3. Qed.
+Theorem C12_protected_prevprime_at_3 : Protected_prevprime_at_3_ok. Proof. exact protected_prevprime_at_3_ok. Qed.
 Print Assumptions C12_protected_prevprime_at_3.
 Theorem C12_set_distinct_factors_product_abs_n : Set2_stmt.             Proof. exact set2_correct. Qed.
 Print Assumptions C12_set_distinct_factors_product_abs_n.
@@ -48,7 +48,7 @@ Theorem C12_isprimepower_sound :
   forall isprime root, isprime_sound isprime -> root_sound root -> Isprimepower_sound_stmt isprime root.
 Proof. exact isprimepower_sound. Qed.
 Print Assumptions C12_isprimepower_sound.
-Theorem C12_isprimepower_complete : Isprimepower_complete_stmt.            Proof. exact isprimepower_complete. Qed.
+Theorem C12_isprimepower_complete : Isprimepower_complete_ok.              Proof. exact isprimepower_complete_ok. Qed.
 Print Assumptions C12_isprimepower_complete.
 Theorem C12_write_sign_and_factor_list : Write_stmt.                       Proof. exact write_correct. Qed.
 Print Assumptions C12_write_sign_and_factor_list.
@@ -56,23 +56,23 @@ Theorem C12_set_one_container_distinct_factors : Set1_stmt.                Proof
 Print Assumptions C12_set_one_container_distinct_factors.
 Theorem C12_divisors_no_repetition : Divisors_NoDup_stmt.                    Proof. exact divisors_nodup. Qed.
 Print Assumptions C12_divisors_no_repetition.
-Theorem C12_isprime_exact_for_all_n_given_gmp : Isprime_all_stmt.           Proof. exact isprime_all. Qed.
+Theorem C12_isprime_exact_for_all_n_given_gmp : Isprime_all_ok.             Proof. exact isprime_all_ok. Qed.
 Print Assumptions C12_isprime_exact_for_all_n_given_gmp.
-Theorem C12_pollard_nontrivial_divisor_any_start : Pollard_all_stmt.         Proof. exact pollard_all. Qed.
-Print Assumptions C12_pollard_nontrivial_divisor_any_start.
+Theorem C12_pollard_nontrivial_divisor_if_it_returns : Pollard_all_stmt.         Proof. exact pollard_all. Qed.
+Print Assumptions C12_pollard_nontrivial_divisor_if_it_returns.
 Theorem C12_iffactorprime_prime_divisor_any_script : Iffactorprime_all_stmt. Proof. exact iffactorprime_all. Qed.
 Print Assumptions C12_iffactorprime_prime_divisor_any_script.
 Theorem C12_primefactor_prime_divisor_any_script : Primefactor_all_stmt.     Proof. exact primefactor_all. Qed.
 Print Assumptions C12_primefactor_prime_divisor_any_script.
-Theorem C12_factor_in_place : Factor_inplace_stmt.                           Proof. exact factor_inplace. Qed.
+Theorem C12_factor_in_place : Factor_inplace_ok.                             Proof. exact factor_inplace_ok. Qed.
 Print Assumptions C12_factor_in_place.
-Theorem C12_pollard_in_place : Pollard_inplace_stmt.                         Proof. exact pollard_inplace. Qed.
+Theorem C12_pollard_in_place : Pollard_inplace_ok.                           Proof. exact pollard_inplace_ok. Qed.
 Print Assumptions C12_pollard_in_place.
 Theorem C12_miller_accepts_every_prime : Miller_stmt.                        Proof. exact miller_correct. Qed.
 Print Assumptions C12_miller_accepts_every_prime.
-Theorem C12_miller_witness_zero : Miller_zero_stmt.                          Proof. exact miller_zero. Qed.
+Theorem C12_miller_witness_zero : Miller_zero_ok.                            Proof. exact miller_zero_ok. Qed.
 Print Assumptions C12_miller_witness_zero.
-Theorem C12_isprimepower_decides : Isprimepower_decides_stmt.                Proof. exact isprimepower_decides. Qed.
+Theorem C12_isprimepower_decides : Isprimepower_decides_ok.                  Proof. exact isprimepower_decides_ok. Qed.
 Print Assumptions C12_isprimepower_decides.
 Theorem C12_isprimepower_terminates : Isprimepower_terminates_stmt.         Proof. exact isprimepower_terminates. Qed.
 Print Assumptions C12_isprimepower_terminates.
@@ -86,3 +86,15 @@ Theorem C12_pepin_agrees_with_primality_partial : Pepin_partial_stmt.        Pro
 Print Assumptions C12_pepin_agrees_with_primality_partial.
 Theorem C12_factor_same_on_every_copy_of_the_domain : Dom_copy_stmt.         Proof. exact dom_copy_same. Qed.
 Print Assumptions C12_factor_same_on_every_copy_of_the_domain.
+Theorem C12_isprimepower_zero_for_nonpositive : Isprimepower_nonpositive_ok.  Proof. exact isprimepower_nonpositive_ok. Qed.
+Print Assumptions C12_isprimepower_zero_for_nonpositive.
+Theorem C12_isprime_total_exact_given_gmp : forall lp, gmp_exact lp -> isprime_exact (isprime_total lp). Proof. exact isprime_total_exact. Qed.
+Print Assumptions C12_isprime_total_exact_given_gmp.
+Theorem C12_nextprime_closest_with_isprime : Nextprime_total_stmt.           Proof. exact nextprime_total. Qed.
+Print Assumptions C12_nextprime_closest_with_isprime.
+Theorem C12_prevprime_closest_with_isprime : Prevprime_total_stmt.           Proof. exact prevprime_total. Qed.
+Print Assumptions C12_prevprime_closest_with_isprime.
+Theorem C12_set_with_scripted_iffactorprime : Set2_s_all_stmt.               Proof. exact set2_s_all. Qed.
+Print Assumptions C12_set_with_scripted_iffactorprime.
+Theorem C12_divisors_of_n_exactly_positive_divisors : Divisors_of_s_all_stmt. Proof. exact divisors_of_s_all. Qed.
+Print Assumptions C12_divisors_of_n_exactly_positive_divisors.
